@@ -184,6 +184,18 @@ func init() {
 		g.buf = &Str{B: nb}
 		return Tuple{ex.i64(int64(len(s.B))), &Iface{}}
 	}
+	m["(*bufio.Writer).Write"] = func(ex *Exec, fr *frame, a []Value) Value {
+		sl := a[1].(*Slice)
+		s := &Str{}
+		for i := 0; i < sl.Len; i++ {
+			s.B = append(s.B, sl.Arr.V.(*ArrayV).E[sl.Off+i].(*Term))
+		}
+		return models["(*bufio.Writer).WriteString"](ex, fr, []Value{a[0], s})
+	}
+	m["(*bufio.Writer).WriteByte"] = func(ex *Exec, fr *frame, a []Value) Value {
+		r := models["(*bufio.Writer).WriteString"](ex, fr, []Value{a[0], &Str{B: []*Term{a[1].(*Term)}}}).(Tuple)
+		return r[1]
+	}
 	m["(*bufio.Writer).Flush"] = func(ex *Exec, fr *frame, a []Value) Value {
 		p := a[0].(*Ptr)
 		if p.Obj == nil {
